@@ -1,4 +1,5 @@
-import CanvasGen.K
+import CanvasGen.CoreK
+import CanvasGen.BezierK
 import Mathlib.Tactic.Ring
 import Mathlib.Tactic.FieldSimp
 import Mathlib.Tactic.Linarith
